@@ -23,7 +23,35 @@ import (
 // bodies cut mid-way, and (thorough tier: they make retryablehttp back off) syntactically bad or
 // duplicated length headers written on a hijacked connection. Whatever arrives, dns.DoH and
 // Resolver.Resolve must return a value or an error - never panic - and allocate within bounds.
+// theQuery is what every call of this workload asks.
+var theQuery = dns.Question{Name: "example.com", Type: 65, Class: 1}
+
+// answersTheQuery: is m a response (QR=1) to theQuery sent with id 1? A DoH client may refuse anything else.
+func answersTheQuery(m *dns.Message) bool {
+	return m.QR == 1 && m.ID == 1 && len(m.Question) == 1 && strings.EqualFold(strings.TrimSuffix(m.Question[0].Name, "."), theQuery.Name) &&
+		m.Question[0].Type == theQuery.Type && m.Question[0].Class == theQuery.Class
+}
+
 func dohFraming(r *mon.Run, bodies [][]byte) {
+	// Every body that decodes is also served re-headed as a response to the query that will be sent (same id, QR=1,
+	// the question echoed): an arbitrary DNS message is not something a DoH client has to accept as its answer, a
+	// response to its own query is. The exact-decoding rule below applies to those.
+	for _, b := range append([][]byte{}, bodies...) {
+		m, err := dns.DecodeMessage(b)
+		if err != nil {
+			continue
+		}
+		func() {
+			defer func() { recover() }() // a decoded record type the encoder does not write: no variant of this body
+			m.ID, m.QR, m.Question = 1, 1, []dns.Question{theQuery}
+			if nb := m.Bytes(); len(nb) <= 65535 {
+				if back, err := dns.DecodeMessage(nb); err == nil && answersTheQuery(back) {
+					bodies = append(bodies, nb)
+					r.Count("doh_framing_bodies_that_answer_the_query", 1)
+				}
+			}
+		}()
+	}
 	type mode struct {
 		name  string
 		exact bool // Content-Length equals the body: the result must be the decoding of exactly that body
@@ -150,7 +178,7 @@ func dohFraming(r *mon.Run, bodies [][]byte) {
 		m := modes[j.m]
 		url := fmt.Sprintf("%s/dns-query?m=%d&b=%d", srv.URL, j.m, j.b)
 		c := map[string]any{"framing": m.name, "body": mon.Clip(mon.Hex(bodies[j.b%len(bodies)]), 300)}
-		q := &dns.Message{ID: 1, RD: 1, Question: []dns.Question{{Name: "example.com", Type: 65, Class: 1}}}
+		q := &dns.Message{ID: 1, RD: 1, Question: []dns.Question{theQuery}}
 		ctx, cancel := context.WithTimeout(context.Background(), 60*time.Second)
 		defer cancel()
 		r.Guard("doh-framing", i, "doh-framing:"+m.name, c, func() {
@@ -159,6 +187,8 @@ func dohFraming(r *mon.Run, bodies [][]byte) {
 				body := bodies[j.b%len(bodies)]
 				want, werr := dns.DecodeMessage(body)
 				switch {
+				case werr == nil && err != nil && !answersTheQuery(want):
+					r.Count("doh_framing_decodable_bodies_that_do_not_answer_the_query_refused", 1) // allowed
 				case (werr == nil) != (err == nil):
 					r.Violate("doh-framing", i, "doh-framing:result-is-not-the-decoding-of-the-body:"+m.name, fmt.Sprintf("DoH returned err=%v for a %d-byte body with a matching Content-Length whose direct decoding gives err=%v", err, len(body), werr), c)
 				case err == nil && fmt.Sprintf("%+v", *msg) != fmt.Sprintf("%+v", *want):
